@@ -20,9 +20,9 @@ IMPORTS = ("Require Import Hdl21.Base.PyInt Hdl21.Model.ParamName Hdl21.Model.Ge
 # ------------------------------------------------------------------------------------------------
 def c_dtype(d):
     t = d[0]
-    if t in ("int", "float", "str", "bool", "ref", "scalar", "pref", "dec"):
+    if t in ("int", "float", "str", "bool", "ref", "scalar", "pref", "dec", "obj"):
         return {"int": "DInt", "float": "DFloat", "str": "DStr", "bool": "DBool", "ref": "DRef",
-                "scalar": "DScalar", "pref": "DPref", "dec": "DDec"}[t]
+                "scalar": "DScalar", "pref": "DPref", "dec": "DDec", "obj": "DObj"}[t]
     if t == "opt":
         return f"(DOpt {c_dtype(d[1])})"
     if t == "enum":
@@ -68,6 +68,8 @@ def c_val(v):
         return f"(VEnum {v[1]}%N)"
     if t == "r":
         return f"(VRef {v[1]}%N)"
+    if t == "o":
+        return f"(VObj {v[1]}%N)"
     if t == "R":
         return f"(VRec {clist(v[1], c_val)})"
     if t == "?":
@@ -114,7 +116,8 @@ def c_obs(o):
 def c_hist(calls, out):
     fin = clist(out["final"], lambda f: f"({f[0]}%nat, {cstr(f[1])}, {cstr(f[2])})")
     runs = clist(out["runs"], lambda r: f"({r[0]}%nat, {clist(r[1], c_val)})")
-    return f"(Build_hobs {clist(calls, c_call)} {clist(out['obs'], c_obs)} {fin} {runs} {cbool(out['exported'])})"
+    clean = out.get("cache", {}).get("pending", 1) == 0 and out.get("cache", {}).get("stack", 1) == 0
+    return f"(Build_hobs {clist(calls, c_call)} {clist(out['obs'], c_obs)} {fin} {runs} {cbool(out['exported'])} {cbool(clean)})"
 
 
 def c_group(g, outs):
@@ -131,7 +134,9 @@ def run_groups(groups, nshard=None):
     jobs = []
     for gi, g in enumerate(groups):
         for hi, h in enumerate(g["hists"]):
-            jobs.append((gi, hi, dict(univ=g["univ"], table=g["table"], calls=h, builtin=g.get("builtin", False))))
+            # every interpreter of a group shifts its heap by another amount (names must not depend on addresses)
+            jobs.append((gi, hi, dict(univ=g["univ"], table=g["table"], calls=h, builtin=g.get("builtin", False),
+                                      ballast=(hi * 1009 + gi * 17) % 7919)))
     nshard = nshard or max(1, min(core.NPROC, (len(jobs) + 19) // 20))
     shards = [jobs[i::nshard] for i in range(nshard)]
 
@@ -170,7 +175,7 @@ ADV_STR = ["", "x", "y", "z", "x b=y", "y b=z", "None", "a=1", " ", "=", "x y", 
            "1", "1.0", "True", "null", '"', "'", "\\", "x  y", "a b=c d=e", "{", "#", "0", "-0.0"]
 INTS = [0, 1, -1, 2, 3, 7, 10, 255, -12, 10 ** 20, -(10 ** 18), 999999999999999]
 FLOATS = [0.0, -0.0, 1.0, 1.5, -2.5, 1e-11, 1e22, 3.14159, 1e-05, 0.1, 2.0, 1e16, 123456.789, float("inf"), float("-inf"),
-          5e-324, 1.7976931348623157e308]
+          5e-324, 1.7976931348623157e308, float("nan")]
 
 
 # classes of EQUAL values of a number-like field, each written in several ways (prefix, digits, type of the input)
@@ -203,10 +208,16 @@ DEC_CLASSES = [
     [["D", "-7.5"], ["f", "-7.5"], ["s", "-75e-1"]],
 ]
 NUM_CLASSES = {"scalar": SCALAR_CLASSES, "pref": PREF_CLASSES, "dec": DEC_CLASSES}
-NREF = 10
+NREF = 12
+# objects WITHOUT a JSON form (harness/impl/c09.py Universe.obj): functions, lambdas, user objects, an Instance ...
+NOBJ = 15
+OBJ_KIND = {0: "function", 1: "lambda", 2: "user_object", 3: "user_value_object", 4: "user_value_object", 5: "instance",
+            6: "builtin", 7: "partial", 8: "lossy_repr_object", 9: "lossy_repr_object", 10: "bound_method", 11: "class",
+            12: "lambda", 13: "closure", 14: "closure"}    # 1 / 12 and 13 / 14: different functions with one qualified name
+OBJ_VARIANTS = {3: 3, 4: 2, 8: 2, 9: 2, 10: 2}     # value types: equal objects built separately
 REF_KIND = {0: "module", 1: "module", 8: "module", 2: "generator", 3: "extmodule", 4: "primcall", 5: "primcall", 9: "primcall",
-            6: "extcall", 7: "extcall"}
-REF_VARIANTS = {4: 4, 5: 3, 6: 3, 7: 3, 9: 3}
+            6: "extcall", 7: "extcall", 10: "frozenset", 11: "frozenset"}
+REF_VARIANTS = {4: 4, 5: 3, 6: 3, 7: 3, 9: 3, 10: 3, 11: 2}
 
 _EXACT = Context(prec=MAX_PREC, Emax=MAX_EMAX, Emin=MIN_EMIN)
 
@@ -261,10 +272,10 @@ def F(x):
 
 
 def gen_dtype(r, depth=1):
-    k = r.choices(["int", "float", "str", "bool", "opt", "enum", "ref", "rec", "scalar", "pref", "dec"],
-                  [5, 4, 6, 1, 4, 2, 3, 2 if depth > 0 else 0, 6, 1, 2])[0]
+    k = r.choices(["int", "float", "str", "bool", "opt", "enum", "ref", "rec", "scalar", "pref", "dec", "obj"],
+                  [5, 4, 6, 1, 5, 2, 3, 2 if depth > 0 else 0, 6, 1, 2, 1])[0]
     if k == "opt":
-        return ["opt", [r.choice(["int", "float", "str", "scalar", "scalar", "dec"])]]
+        return ["opt", [r.choice(["int", "float", "str", "scalar", "scalar", "dec", "obj", "obj"])]]
     if k == "enum":
         return ["enum", r.choice([2, 3])]
     if k == "rec":
@@ -306,7 +317,10 @@ def gen_value(r, d, bad=0.0):
     if t == "bool":
         return ["b", r.choice([True, False])]
     if t == "opt":
-        return ["n"] if r.random() < 0.3 else gen_value(r, d[1], 0)
+        return ["n"] if r.random() < (0.5 if d[1][0] == "obj" else 0.3) else gen_value(r, d[1], 0)
+    if t == "obj":
+        i = r.choice([0, 1, 2, 3, 3, 4, 5, 8, 9, 12, 13, 14]) if r.random() < 0.8 else r.randrange(NOBJ)
+        return ["o", i, r.randrange(OBJ_VARIANTS.get(i, 1))]
     if t == "enum":
         return ["e", r.randrange(d[1]), r.choice(["member", "value"])]
     if t == "ref":
@@ -337,7 +351,18 @@ def gen_class(r, scalar_only):
     k = r.randint(0, n)
     for f in fields[k:]:
         f["default"] = strip_form(gen_value(r, f["dtype"], 0))
+        f["default"] = denan(f["default"])      # NaN is no parameter value, and so no default
     return fields
+
+
+def denan(v):
+    if v is None:
+        return v
+    if v[0] == "f" and v[1] == "nan":
+        return ["f", "1.5"]
+    if v[0] == "R":
+        return ["R", [denan(x) for x in v[1]]] + v[2:]
+    return v
 
 
 def strip_form(v):
@@ -372,6 +397,8 @@ def rewrite_args(r, fields, args):
             out.append(with_form(r, list(r.choice(num_class(d[0], a)))))
         elif a[0] == "r" and a[1] in REF_VARIANTS:
             out.append(["r", a[1], r.randrange(REF_VARIANTS[a[1]])])
+        elif a[0] == "o" and a[1] in OBJ_VARIANTS:
+            out.append(["o", a[1], r.randrange(OBJ_VARIANTS[a[1]])])
         elif a[0] == "e":
             out.append(["e", a[1], "value" if a[2] == "member" else "member"])
         elif a[0] == "R":
@@ -379,7 +406,7 @@ def rewrite_args(r, fields, args):
             out.append(["R", sub, "dict" if a[2] == "inst" else "inst"])
         elif d[0] == "float" and a[0] == "f" and a[1] in ("0.0", "-0.0") and r.random() < 0.7:
             out.append(F(-float(a[1])))
-        elif d[0] == "float" and a[0] == "f" and a[1] not in ("inf", "-inf") and float(a[1]) == int(float(a[1])) \
+        elif d[0] == "float" and a[0] == "f" and a[1] not in ("inf", "-inf", "nan") and float(a[1]) == int(float(a[1])) \
                 and abs(int(float(a[1]))) < 10 ** 15:
             out.append(I(int(float(a[1]))))
         elif d[0] == "int" and a[0] == "i" and a[1] in (0, 1):
@@ -401,9 +428,11 @@ def gen_group(r, scalar_only=False, bad=0.0, cyclic=0.0):
         extra = [rewrite_args(r, g["fields"], a) for a in base if r.random() < 0.7]
         pools.append(base + extra)
     table = []
+    # (a NaN is no parameter value: such calls are made by the histories, but are not table entries or nested calls)
+    has_nan = lambda a: '["f", "nan"]' in json.dumps(a)
     for gi, g in enumerate(univ):
         for a in pools[gi]:
-            if r.random() < 0.45:
+            if r.random() < 0.45 or has_nan(a) or any(f["default"] is not None and has_nan(f["default"]) for f in g["fields"]):
                 continue
             calls = []
             for _ in range(r.choice([0, 1, 1, 2, 3])):
@@ -413,7 +442,9 @@ def gen_group(r, scalar_only=False, bad=0.0, cyclic=0.0):
                     if gi + 1 >= ng:
                         break
                     gj = r.randrange(gi + 1, ng)
-                calls.append([gj, r.choice(pools[gj]), r.choice(["kw", "inst"])])
+                cand = [x for x in pools[gj] if not has_nan(x)] if not any(f["default"] is not None and has_nan(f["default"]) for f in univ[gj]["fields"]) else []
+                if cand:
+                    calls.append([gj, r.choice(cand), r.choice(["kw", "inst"])])
             if calls and r.random() < 0.6:
                 ret = ["pass", r.randrange(len(calls))]
             else:
@@ -428,7 +459,15 @@ def gen_group(r, scalar_only=False, bad=0.0, cyclic=0.0):
         h1.insert(k, [gi, gen_args(r, univ[gi]["fields"], bad=bad), "kw"])
     h2 = [c[:2] + [r.choice(["kw", "inst"])] for c in reversed(h1)]
     h3 = [c[:2] + [r.choice(["kw", "inst"])] for c in r.sample(h1, r.randint(1, len(h1)))]
-    return dict(univ=univ, table=table, hists=[h1, h2, h3])
+    hists = [h1, h2, h3]
+    if has_obj(json.dumps(univ)) or r.random() < 0.15:
+        # the caller's retry: every call made again right away (a refused call is refused again, an answered one answered alike)
+        hists.append([c[:2] + [r.choice(["kw", "inst"])] for c0 in h3 for c in (c0, c0)])
+    return dict(univ=univ, table=table, hists=hists)
+
+
+def has_obj(txt):
+    return '"obj"' in txt or '["o", ' in txt
 
 
 # ---- corpus: pinned-tree witnesses and the adversarial shapes named by the property ----
@@ -506,6 +545,73 @@ def corpus():
           [[1, [nz, None], "inst"], [1, [I(0), None], "kw"], [0, [None], "kw"], [0, [nz], "kw"], [0, [["b", False]], "kw"]]]
     gs.append(dict(univ=u, table=[], hists=hs, tag="negative-zero"))
     gs += corpus_numbers()
+    gs += corpus_unnameable()
+    return gs
+
+
+def O(i, variant=0):
+    return ["o", i, variant]
+
+
+def corpus_unnameable():
+    """Parameter values that cannot be named (no JSON form): the call is refused AFTER its body ran - and refused again
+    when it is repeated, in every interpreter; no module is ever handed out for it.  (Seeded changes C09r2-A / C08r2-A:
+    the repeated call returned the un-suffixed module; C09r2-C: named by repr(obj), i.e. by address.)"""
+    gs = []
+    # 17. the caller's retry, a second value, an unrelated generator in between
+    fg = [dict(name="width", dtype=["int"], default=None), dict(name="fn", dtype=["obj"], default=None)]
+    fh = [dict(name="w", dtype=["int"], default=I(1))]
+    u = [dict(name="G", fields=fg), dict(name="H", fields=fh)]
+    G = lambda w, o, form="kw": [0, [I(w), o], form]
+    H = lambda w: [1, [I(w)], "kw"]
+    hs = [[G(1, O(0)), G(1, O(0)), G(2, O(1)), G(2, O(1), "inst"), G(1, O(0), "inst")],
+          [G(2, O(1)), G(1, O(0)), G(2, O(1))],
+          [G(1, O(0))],
+          [H(1), G(1, O(0)), H(1), H(2), G(1, O(0)), G(2, O(0)), G(2, O(0)), H(2)],
+          [G(1, O(5)), G(1, O(5)), G(2, O(5)), G(1, O(5))]]
+    gs.append(dict(univ=u, table=[], hists=hs, tag="unnameable-retry"))
+    # 18. every kind of object, each call repeated; other orders in other interpreters
+    u = [dict(name="K", fields=[dict(name="o", dtype=["obj"], default=None)])]
+    calls = [[0, [O(i, v)], "kw" if (i + v) % 2 else "inst"] for i in range(NOBJ) for v in range(OBJ_VARIANTS.get(i, 1))]
+    twice = [c for c0 in calls for c in (c0, c0)]
+    gs.append(dict(univ=u, table=[], hists=[twice, list(reversed(calls)), calls[5:] + calls[:5], [calls[3]], [calls[4]], [calls[0]]],
+                   tag="unnameable-kinds"))
+    # 19. optional and nested fields: None is a value like any other (named), an object anywhere in the parameters is not
+    fo = [dict(name="n", dtype=["rec", [["opt", ["obj"]], ["int"]]], default=None),
+          dict(name="o", dtype=["opt", ["obj"]], default=["n"])]
+    u = [dict(name="N", fields=fo)]
+    A = lambda o, no, k, form="inst": [0, [["R", [no, I(k)], form], o], "kw"]
+    hs = [[A(None, ["n"], 1), A(["n"], ["n"], 1, "dict"), A(O(0), ["n"], 1), A(O(0), ["n"], 1), A(["n"], O(3, 0), 1), A(None, O(3, 1), 1, "dict"),
+           A(["n"], ["n"], 2), A(["n"], O(3, 2), 2), A(["n"], ["n"], 1)],
+          [A(["n"], O(3, 1), 1), A(None, ["n"], 1), A(O(0), ["n"], 1), A(["n"], ["n"], 2)],
+          [A(None, ["n"], 2), A(None, ["n"], 1)]]
+    gs.append(dict(univ=u, table=[], hists=hs, tag="unnameable-optional-nested"))
+    # 20. nesting: Outer(o) hands on the module of Inner(w) - that module IS named, by Inner; Wrap(o) builds its own and is
+    #     refused after Inner ran; Deep(w) calls Leaf(o), which is refused, so Deep is, every time
+    fobj = [dict(name="o", dtype=["obj"], default=None)]
+    fw = [dict(name="w", dtype=["int"], default=None)]
+    u = [dict(name="Outer", fields=fobj), dict(name="Wrap", fields=fobj), dict(name="Deep", fields=fw),
+         dict(name="Inner", fields=fw), dict(name="Leaf", fields=fobj)]
+    t = [dict(gen=0, args=[O(0)], calls=[[3, [I(1)], "kw"]], ret=["pass", 0]),
+         dict(gen=0, args=[O(3, 0)], calls=[[3, [I(2)], "kw"], [3, [I(1)], "inst"]], ret=["pass", 0]),
+         dict(gen=1, args=[O(0)], calls=[[3, [I(1)], "kw"], [3, [I(3)], "kw"]], ret=["fresh", None]),
+         dict(gen=2, args=[I(1)], calls=[[3, [I(1)], "kw"], [4, [O(1)], "kw"]], ret=["pass", 0]),
+         dict(gen=2, args=[I(2)], calls=[[4, [O(3, 1)], "kw"]], ret=["fresh", "Body"])]
+    hs = [[[0, [O(0)], "kw"], [0, [O(0)], "inst"], [3, [I(1)], "kw"], [1, [O(0)], "kw"], [1, [O(0)], "kw"], [3, [I(3)], "kw"]],
+          [[1, [O(0)], "kw"], [3, [I(3)], "kw"], [0, [O(0)], "kw"], [1, [O(0)], "inst"]],
+          [[2, [I(1)], "kw"], [2, [I(1)], "kw"], [3, [I(1)], "kw"], [4, [O(1)], "kw"], [2, [I(2)], "kw"], [2, [I(2)], "kw"], [2, [I(3)], "kw"]],
+          [[0, [O(3, 1)], "kw"], [0, [O(3, 2)], "kw"], [3, [I(2)], "kw"], [4, [O(3, 0)], "kw"], [4, [O(3, 2)], "kw"]],
+          [[3, [I(2)], "kw"], [0, [O(3, 0)], "kw"]]]
+    gs.append(dict(univ=u, table=t, hists=hs, tag="unnameable-nesting"))
+    # 21. value types: equal objects built separately, at other addresses in every interpreter; unequal objects with one repr
+    fc = [dict(name="corner", dtype=["obj"], default=None), dict(name="n", dtype=["int"], default=I(1))]
+    u = [dict(name="G", fields=fc)]
+    C = lambda i, v, form="kw": [0, [O(i, v), None], form]
+    hs = [[C(3, 0), C(3, 1), C(3, 2, "inst"), C(4, 0), C(8, 0), C(9, 0), C(3, 0)],
+          [C(3, 2), C(3, 0)],
+          [C(9, 1), C(8, 1), C(4, 1), C(3, 1)],
+          [C(3, 1)], [C(8, 0)], [C(9, 0)]]
+    gs.append(dict(univ=u, table=[], hists=hs, tag="unnameable-value-objects"))
     return gs
 
 
@@ -579,6 +685,22 @@ def corpus_numbers():
     sp = [["D", "1E-21"], ["i", 0], ["P", "1000", -24], ["D", "0.0000000000000000000001"], ["P", "0.1", -24]]
     calls = [[0, [v], "kw"] for v in sp]
     gs.append(dict(univ=u, table=[], hists=[calls, list(reversed(calls))], tag="tolerance"))
+    # 22. NaN is not equal to itself: it is no parameter value (refused before anything runs; un-repaired tree: every call a
+    #     new module, all named `G(f=nan)`)
+    nan, inf = F(float("nan")), F(float("inf"))
+    u = [dict(name="G", fields=[dict(name="f", dtype=["float"], default=None)]),
+         dict(name="N", fields=[dict(name="n", dtype=["rec", [["opt", ["float"]], ["int"]]], default=None), dict(name="e", dtype=["bool"], default=["b", False])])]
+    NN = lambda x, k, form="inst": [1, [["R", [x, I(k)], form], None], "kw"]
+    hs = [[[0, [nan], "kw"], [0, [nan], "kw"], [0, [F(1.0)], "kw"], [0, [nan], "inst"], [0, [inf], "kw"], [0, [inf], "inst"]],
+          [[0, [inf], "kw"], [0, [nan], "kw"]],
+          [NN(nan, 1), NN(nan, 1, "dict"), NN(["n"], 1), NN(F(2.5), 1), NN(nan, 1)],
+          [NN(F(2.5), 1), NN(nan, 1)]]
+    gs.append(dict(univ=u, table=[], hists=hs, tag="float-nan"))
+    # 23. set-valued parameters: equal sets built in other orders, in interpreters with other hash seeds - one call, one name
+    u = [dict(name="S", fields=[dict(name="c", dtype=["ref"], default=None), dict(name="k", dtype=["int"], default=I(0))])]
+    calls = [[0, [["r", i, v], None], "kw" if v % 2 else "inst"] for i in (10, 11) for v in range(REF_VARIANTS[i])]
+    hs = [calls, list(reversed(calls)), [calls[1]], [calls[2]], [calls[0]], [calls[4]], [calls[3]], calls[2:] + calls[:2]]
+    gs.append(dict(univ=u, table=[], hists=hs, tag="set-valued"))
     return gs
 
 
@@ -623,6 +745,12 @@ def exhaustive_small(quick):
     vp = [["n"], ["P", "2", 3], ["P", "2000", 0], ["P", "2.001", 3]]
     calls = [[0, [a, b], "kw"] for a in vd for b in vp]
     gs.append(dict(univ=u, table=[], hists=[calls, list(reversed(calls))], tag="box-dec-pref"))
+    # values without a JSON form against None and ints: every pair of parameter sets in one history, every call repeated
+    u = [dict(name="G", fields=[dict(name="w", dtype=["int"], default=None), dict(name="o", dtype=["opt", ["obj"]], default=["n"])])]
+    vo = [["n"], O(0), O(1), O(12), O(3, 0), O(3, 1), O(4, 0), O(8, 0), O(9, 0), O(5), O(13), O(14)] + \
+        ([] if quick else [O(2), O(6), O(7), O(10, 0), O(10, 1), O(11)])
+    calls = [[0, [I(b), a], "kw"] for a in vo for b in (1, 2)]
+    gs.append(dict(univ=u, table=[], hists=[calls + calls, list(reversed(calls)) + calls], tag="box-unnameable"))
     return gs
 
 
@@ -740,7 +868,7 @@ def nontrivial(g):
     """non-trivial = the group has a repeated call AND (a hand-on / nested body, or a non-plain or coerced value)."""
     txt = json.dumps(g["hists"])
     rep = any(len({json.dumps(c[:2]) for c in h}) < len(h) for h in g["hists"]) or len(g["hists"]) > 1
-    rich = any(e["calls"] for e in g["table"]) or any(s in txt for s in ('" "', "=", "None", '"b"', '"e"', '"R"', '"r"', '"P"', '"D"', '"L"'))
+    rich = any(e["calls"] for e in g["table"]) or any(s in txt for s in ('" "', "=", "None", '"b"', '"e"', '"R"', '"r"', '"P"', '"D"', '"L"', '"o"'))
     return rep and rich
 
 
@@ -752,6 +880,13 @@ TARGETS = ["fields_scalar", "fields_prefixed", "fields_decimal", "fields_optiona
            "calls_ref_module", "calls_ref_generator", "calls_ref_extmodule", "calls_ref_primcall", "calls_ref_extcall",
            "equal_call_references_built_separately_pairs", "literal_values", "number_inputs_int", "number_inputs_float",
            "number_inputs_str", "number_inputs_decimal", "number_inputs_prefixed"]
+# strengthening round: histories that go on after a refused call, parameter values that cannot be named
+TARGETS += ["calls_ref_frozenset", "calls_refused_for_a_nan_parameter", "fields_unnameable", "fields_optional_or_nested_unnameable", "calls_refused_for_unnameable_parameters",
+            "refused_call_repeated_in_one_interpreter", "second_unnameable_value_after_a_refusal", "call_answered_after_a_refusal",
+            "design_exported_after_a_refusal", "call_refused_in_two_fresh_interpreters", "equal_unnameable_value_objects_built_separately_pairs",
+            "handed_on_module_through_a_call_with_unnameable_parameters", "refused_through_a_nested_unnameable_call",
+            "refused_calls_by_other_causes_then_more_calls"] + \
+           ["unnameable_" + k for k in sorted(set(OBJ_KIND.values()))]
 
 
 def walk_dtypes(d, depth=0):
@@ -796,7 +931,81 @@ def has_number(fields, args):
     return any(k in txt for k in ('"scalar"', '"pref"', '"dec"'))
 
 
+def objs_in(fields, args):
+    """the objects without a JSON form among the (defaulted) arguments of a call: list of (index, variant)"""
+    out = []
+
+    def walk(v):
+        if v is None:
+            return
+        if v[0] == "o":
+            out.append((v[1] % NOBJ, v[2] if len(v) > 2 else 0))
+        elif v[0] == "R":
+            for x in v[1]:
+                walk(x)
+    for f, a in zip(fields, args):
+        walk(a if a is not None else f.get("default"))
+    return out
+
+
+def measure_refusals(cov, g, outs):
+    univ = g["univ"]
+    for gen in univ:
+        for f in gen["fields"]:
+            for d, depth in walk_dtypes(f["dtype"]):
+                if d[0] == "obj":
+                    cov["fields_unnameable"] += 1
+                    if depth > 0:
+                        cov["fields_optional_or_nested_unnameable"] += 1
+    rej_in = {}         # key -> number of interpreters it was refused in
+    variants = {}       # key -> variant tuples it was refused with
+    for h, o in zip(g["hists"], outs):
+        rej_keys, seen_rej, other_pending = {}, False, False
+        per_gen = {}
+        for c, x in zip(h, o["obs"]):
+            if c[0] >= len(univ):
+                continue
+            fields = univ[c[0]]["fields"]
+            objs = objs_in(fields, c[1]) if len(c[1]) == len(fields) else []
+            ids = arg_ids(fields, c[1]) if len(c[1]) == len(fields) else None
+            key = (c[0], ids[0]) if ids else None
+            if x[0] == "rej" and '["f", "nan"]' in json.dumps([a if a is not None else f.get("default") for f, a in zip(fields, c[1])]):
+                cov["calls_refused_for_a_nan_parameter"] += 1
+            if x[0] == "rej":
+                if objs and key:
+                    cov["calls_refused_for_unnameable_parameters"] += 1
+                    for i, _ in objs:
+                        cov["unnameable_" + OBJ_KIND[i]] += 1
+                    rej_keys[key] = rej_keys.get(key, 0) + 1
+                    per_gen.setdefault(c[0], set()).add(key)
+                    variants.setdefault(key, set()).add(tuple(v for _, v in objs))
+                elif key:
+                    e = next((e for e in g["table"] if e["gen"] == c[0] and json.dumps(e["args"]) == json.dumps(c[1])), None)
+                    if e and any(objs_in(univ[cc[0]]["fields"], cc[1]) for cc in e["calls"] if cc[0] < len(univ)):
+                        cov["refused_through_a_nested_unnameable_call"] += 1
+                if not objs:
+                    other_pending = True
+                seen_rej = True
+            else:
+                if seen_rej:
+                    cov["call_answered_after_a_refusal"] += 1
+                if other_pending:
+                    cov["refused_calls_by_other_causes_then_more_calls"] += 1
+                    other_pending = False
+                if objs:
+                    cov["handed_on_module_through_a_call_with_unnameable_parameters"] += 1
+        cov["refused_call_repeated_in_one_interpreter"] += sum(1 for n in rej_keys.values() if n > 1)
+        cov["second_unnameable_value_after_a_refusal"] += sum(1 for ks in per_gen.values() if len(ks) > 1)
+        if seen_rej and o["exported"]:
+            cov["design_exported_after_a_refusal"] += 1
+        for k in rej_keys:
+            rej_in[k] = rej_in.get(k, 0) + 1
+    cov["call_refused_in_two_fresh_interpreters"] += sum(1 for n in rej_in.values() if n > 1)
+    cov["equal_unnameable_value_objects_built_separately_pairs"] += sum(len(v) * (len(v) - 1) // 2 for v in variants.values())
+
+
 def measure(cov, g, outs):
+    measure_refusals(cov, g, outs)
     univ = g["univ"]
     for gen in univ:
         for f in gen["fields"]:
@@ -825,8 +1034,9 @@ def measure(cov, g, outs):
     spell_of = {}   # (gen, value id) -> spellings seen
     for h, o in zip(g["hists"], outs):
         seen = set()
-        nacc = sum(1 for x in o["obs"] if x[0] == "acc")
-        for k, c in enumerate(h[:nacc]):
+        for k, (c, x) in enumerate(zip(h, o["obs"])):
+            if x[0] != "acc" or c[0] >= len(univ):
+                continue
             fields = univ[c[0]]["fields"]
             for f, a in zip(fields, c[1]):
                 count_vals(a)
@@ -972,7 +1182,7 @@ def run(run, tier, seed, replay=None):
         measure(cov, g, o)
     nh = sum(len(g["hists"]) for g, _ in keep)
     total_hist += nh
-    rej = sum(1 for _, o in keep for oo in o if oo["obs"] and oo["obs"][-1][0] == "rej")
+    rej = sum(1 for _, o in keep for oo in o if any(x[0] == "rej" for x in oo["obs"]))
     hashed = sum(1 for _, o in keep for oo in o for f in oo["final"] if len(f[1]) >= 34 and f[1][-34] == "(" and "=" not in f[1][-33:])
     readable = sum(1 for _, o in keep for oo in o for f in oo["final"] if "=" in f[1])
     run.stream("structured-random", nh, len({shrink_key(g) for g, _ in keep if nontrivial(g)}), groups=len(keep),
@@ -991,7 +1201,7 @@ def run(run, tier, seed, replay=None):
     keep, res, skipped = evaluate(run, "malformed", mg)
     nh = sum(len(g["hists"]) for g, _ in keep)
     total_hist += nh
-    rej = sum(1 for _, o in keep for oo in o if oo["obs"] and oo["obs"][-1][0] == "rej")
+    rej = sum(1 for _, o in keep for oo in o if any(x[0] == "rej" for x in oo["obs"]))
     run.stream("malformed", nh, len({shrink_key(g) for g, _ in keep}), groups=len(keep), histories_with_rejection=rej,
                rejected_fraction=round(rej / max(nh, 1), 4), skipped_unprintable=skipped,
                rule="invalid arguments, missing required fields, circular generator calls; distinct by group")
